@@ -467,4 +467,99 @@ theorem C18_consumer_sees_producer_output (Y : YieldFn) (F : BodyFn) (ts : List 
     · intro n a b c
       exact mem_glob.2 ⟨a, b, c⟩
 
+/-- **C18_generator_always_runs.** By design a task generator is executed in every build (its states are never
+recorded): whenever a build hands out a generator that is not skipped because an ancestor failed, its function is called.
+What it then defines is `Y g (lists received)`: the same tasks as in the previous build iff it receives the same lists
+(`Y` is a function; `C18_generated` shows they join `session.tasks` and are scheduled in the same build). -/
+theorem C18_generator_always_runs (Y : YieldFn) (F : BodyFn) (ts : List PTask) (w : World) (s0 sm s' : Prov.Sess)
+    (pre : List Nat) (g : Nat) (post : List Nat) (_h0 : initSess ts w = some s0) (_h1 : loop Y F s0 pre = .ok sm)
+    (_h2 : loop Y F sm (g :: post) = .ok s') (G : PTask) (hG : findTask sm.tasks g = some G) (hgen : G.gen = true)
+    (hfm : g ∉ sm.failMarks) : (stepOf Y F sm g).log = sm.log ++ [g] :=
+  protocol_gen_log Y F { sm with so := sm.so.take [tv g] } g G hG hgen hfm
+
+/-- **C18_generated_incremental** (two builds; the C03 shape for tasks without pattern arguments — in particular the
+copy tasks a generator defines per matched file, and their plain dependants).
+
+Build A (tasks `tsA`, any world) hands out `k` with record `K` (no pattern arguments, no `after`); its function is
+called, it does not fail, nothing crashes. Build B (tasks `tsB`, **any** file system `fsB`, the database build A left)
+reaches `k` again with the same record `K` (collected again, or defined again by its generator — generators always run,
+`C18_generator_always_runs`), `k`'s id is unique and `k` is not skip-marked. Then
+* **unchanged ⇒ not executed**: if every dependency, the module and every product of `K` has, at that moment, the
+  content it had right after `k`'s protocol in build A, then the function of `k` is not called and `k` is reported
+  `SKIP_UNCHANGED`;
+* **changed ⇒ executed**: if some dependency `d` (e.g. the matched source file of a copy task) has another content, and
+  the dependencies and the module exist, the function of `k` is called. -/
+theorem C18_generated_incremental (Y : YieldFn) (F : BodyFn)
+    (tsA : List PTask) (wA : World) (s0A smA sA : Prov.Sess) (preA : List Nat) (k : Nat) (postA : List Nat)
+    (h0A : initSess tsA wA = some s0A) (h1A : loop Y F s0A preA = .ok smA) (h2A : loop Y F smA (k :: postA) = .ok sA)
+    (K : PTask) (hKA : findTask smA.tasks k = some K) (hng : K.gen = false) (hpd : K.pdeps = []) (hpp : K.pprods = [])
+    (hafter : K.after = [])
+    (hranA : (stepOf Y F smA k).log = smA.log ++ [k]) (hnfA : (k, Outcome.fail) ∉ (stepOf Y F smA k).reports)
+    (hcrA : (stepOf Y F smA k).crashed = false)
+    (tsB : List PTask) (fsB : FS) (s0B smB sB : Prov.Sess) (preB postB : List Nat)
+    (h0B : initSess tsB ⟨fsB, sA.w.db⟩ = some s0B) (h1B : loop Y F s0B preB = .ok smB) (h2B : loop Y F smB (k :: postB) = .ok sB)
+    (hKB : findTask smB.tasks k = some K) (huniq : ∀ u ∈ smB.tasks, u.id = k → u = K) (hfmB : k ∉ smB.failMarks) :
+    ((∀ x ∈ K.allDeps ++ [K.src] ++ K.allProds, lookup smB.w.fs x = lookup (stepOf Y F smA k).w.fs x) →
+      (stepOf Y F smB k).log = smB.log ∧ (stepOf Y F smB k).reports = smB.reports ++ [(k, Outcome.skipUnchanged)]) ∧
+    (∀ d ∈ K.allDeps, lookup smB.w.fs d ≠ lookup (stepOf Y F smA k).w.fs d →
+      (∀ x ∈ K.allDeps, (lookup smB.w.fs x).isSome = true) → (lookup smB.w.fs K.src).isSome = true →
+      (stepOf Y F smB k).log = smB.log ++ [k]) := by
+  have hid : K.id = k := findTask_id hKA
+  -- build A: what the successful protocol of k recorded
+  have hiA : LInv tsA smA ([] ++ preA) := loop_inv preA s0A smA [] (initSess_inv h0A) h1A
+  simp only [List.nil_append] at hiA
+  obtain ⟨hsA, _, hlA, _, h5A⟩ := loop_cons h2A
+  have hkA : k ∉ preA := pick_fresh hiA hsA hlA
+  have htwA : k ∉ smA.twp := fun h => hkA (by
+    simpa using loop_twp preA s0A smA [] (by rw [initSess_twp h0A]; intro u hu; cases hu) h1A k h)
+  obtain ⟨mA, hdagA⟩ := (hiA.good hsA).dag
+  have hrecA : Recorded (stepOf Y F smA k).w K :=
+    plain_records Y F { smA with so := smA.so.take [tv k] } k K mA hdagA hKA hng hpd hpp htwA hranA hnfA hcrA
+  -- the rows of k survive the rest of build A and the prefix of build B
+  have hndA : (preA ++ k :: postA).Nodup := by
+    have hall := loop_append_ok preA (k :: postA) s0A smA sA h1A h2A
+    simpa using loop_nodup _ s0A sA [] (initSess_inv h0A) List.nodup_nil hall
+  have hkpostA : k ∉ postA := by
+    have := (List.nodup_append.1 hndA).2.1
+    exact (List.nodup_cons.1 this).1
+  have hiB : LInv tsB smB ([] ++ preB) := loop_inv preB s0B smB [] (initSess_inv h0B) h1B
+  simp only [List.nil_append] at hiB
+  obtain ⟨hsB, _, hlB, _, _⟩ := loop_cons h2B
+  have hkB : k ∉ preB := pick_fresh hiB hsB hlB
+  have htwB : k ∉ smB.twp := fun h => hkB (by
+    simpa using loop_twp preB s0B smB [] (by rw [initSess_twp h0B]; intro u hu; cases hu) h1B k h)
+  have hdb : ∀ v, lookup smB.w.db (tv k, v) = lookup (stepOf Y F smA k).w.db (tv k, v) := by
+    intro v
+    rw [loop_db_other k v preB s0B smB h1B hkB, (initSess_empty h0B).2.2.2.1]
+    exact loop_db_other k v postA _ sA h5A hkpostA
+  obtain ⟨mB, hdagB⟩ := (hiB.good hsB).dag
+  let sb : Prov.Sess := { smB with so := smB.so.take [tv k] }
+  have hstepB : stepOf Y F smB k = { protocol Y F sb k with so := (protocol Y F sb k).so.finish [tv k] } := rfl
+  refine ⟨fun hsame => ?_, fun d hd hne hex hsrc => ?_⟩
+  · have hrecB : Recorded smB.w K := by
+      refine ⟨fun x hx => ?_, ?_, fun p hp => ?_⟩
+      · obtain ⟨h, e1, e2⟩ := hrecA.1 x hx
+        exact ⟨h, by rw [hsame x (by simp [hx])]; exact e1, by rw [hid, hdb]; rw [hid] at e2; exact e2⟩
+      · obtain ⟨h, e1, e2⟩ := hrecA.2.1
+        exact ⟨h, by rw [hsame K.src (by simp)]; exact e1, by rw [hid, hdb]; rw [hid] at e2; exact e2⟩
+      · obtain ⟨h, e1, e2⟩ := hrecA.2.2 p hp
+        exact ⟨h, by rw [hsame p (by simp [hp])]; exact e1, by rw [hid, hdb]; rw [hid] at e2; exact e2⟩
+    have := plain_skip Y F sb k K mB hdagB hKB hng hpd hpp htwB hfmB huniq hafter hrecB
+    rw [hstepB, this]
+    exact ⟨rfl, rfl⟩
+  · obtain ⟨h, e1, e2⟩ := hrecA.1 d hd
+    have hch : hasChanged smB.w k (nv d) (lookup smB.w.fs d) = true := by
+      unfold hasChanged
+      cases hcur : lookup smB.w.fs d with
+      | none => rfl
+      | some c =>
+        have hrow : lookup smB.w.db (tv k, nv d) = some h := by rw [hdb]; rw [hid] at e2; exact e2
+        simp only [hrow]
+        have : c ≠ h := by
+          intro e; apply hne; rw [hcur, e1, e]
+        simpa using fun e => this e.symm
+    have := plain_runs Y F sb k K mB hdagB hKB hng hpd hpp htwB hfmB huniq hafter d hd hch hex hsrc
+    rw [hstepB]
+    exact this
+
 end Pytask
